@@ -2,6 +2,8 @@
 #include <cmath>
 #include <cstdint>
 #include <limits>
+#include <memory>
+#include <sstream>
 #include <variant>
 #include <vector>
 
@@ -192,7 +194,16 @@ static void over_storage(vh::Rng & rng, unsigned nfields)
                 if (k == N) break;
             }
         }
-        typename field_t::view_t view(f);
+        // every second array-backed field is looked up through a copy that went through dump + load
+        std::unique_ptr<field_t> reloaded;
+        if constexpr (!PROBE) {
+            if (fi & 1) {
+                std::stringstream ss(std::ios::in | std::ios::out | std::ios::binary);
+                f.dump(ss);
+                reloaded = std::make_unique<field_t>(static_cast<std::istream &>(ss));
+            }
+        }
+        typename field_t::view_t view(reloaded ? *reloaded : f);
         std::vector<std::size_t> cat[N];
         for (std::size_t k = 0; k < N; ++k) {
             catalogue<std::size_t>(cat[k], cfg.min[k], cfg.max[k]);
